@@ -542,6 +542,60 @@ pub fn compare_receiving_type(pred: &Pred, run: &Run) -> Option<Diff> {
     None
 }
 
+/// C04 oracle B(iii), any answer script: every hand-over of a report happens at one of the positions the
+/// types on its path require, and the FIRST one at the deepest of them (the child's own position) —
+/// whatever was answered before. `pred` is the keep-going prediction for the same payload.
+pub fn handover_chain(pred: &Pred, run: &Run) -> Option<Diff> {
+    for r in run.reports() {
+        let cands: Vec<&refmodel::PRep> = pred.reports.iter().filter(|p| p.loc == r.loc && p.kind.digest() == obs_digest(&r.kind)).collect();
+        let Some(first) = cands.first() else { continue };
+        if cands.iter().any(|c| c.handovers != first.handovers) {
+            continue;
+        }
+        let locs: Vec<&Path> = run.merges().filter(|m| m.other_holding.contains(&r.id)).map(|m| &m.loc).collect();
+        for l in &locs {
+            if !first.handovers.contains(*l) {
+                return Some(Diff {
+                    rule: "handover-at-a-position-the-types-do-not-have",
+                    detail: format!(
+                        "report `{}` at {:?} was handed over at {:?}; the element positions on its path are {:?}",
+                        obs_digest(&r.kind),
+                        render_path(&r.loc),
+                        render_path(l),
+                        first.handovers.iter().map(|p| render_path(p)).collect::<Vec<_>>()
+                    ),
+                    loc: (*l).clone(),
+                });
+            }
+        }
+        if let Some(l0) = locs.first() {
+            let deepest = first.handovers.iter().map(|p| p.len()).max().unwrap_or(0);
+            if l0.len() != deepest {
+                return Some(Diff {
+                    rule: "first-handover-not-at-the-childs-own-position",
+                    detail: format!(
+                        "report `{}` at {:?} was first handed over at {:?} instead of its own element position (one of {:?})",
+                        obs_digest(&r.kind),
+                        render_path(&r.loc),
+                        render_path(l0),
+                        first.handovers.iter().filter(|p| p.len() == deepest).map(|p| render_path(p)).collect::<Vec<_>>()
+                    ),
+                    loc: (*l0).clone(),
+                });
+            }
+        }
+    }
+    None
+}
+
+pub fn unique_keys(p: &Ov) -> bool {
+    match p {
+        Ov::Seq(v) => v.iter().all(unique_keys),
+        Ov::Map(m) => m.iter().enumerate().all(|(i, (k, v))| !m[..i].iter().any(|(kk, _)| kk == k) && unique_keys(v)),
+        _ => true,
+    }
+}
+
 pub fn compare_value(pred: &Pred, run: &Run) -> Option<Diff> {
     match (&pred.value, &run.outcome) {
         (_, Outcome::Panic(_)) => None,
@@ -629,18 +683,31 @@ pub struct Case {
     pub faults: Vec<&'static str>,
 }
 
+/// Which liberties of the second value source a workload may use.
+#[derive(Clone, Copy)]
+pub struct Host {
+    pub dup: bool,
+    pub nonfinite: bool,
+    pub noncanon: bool,
+}
+
 /// The i-th generated payload for a subject (deterministic in (seed, subject name, i)).
 pub fn gen_case(reg: &Registry, s: &dyn Subject, seed: u64, i: u64, hostile: bool) -> Case {
-    let h = vcore::evidence::hash64(s.name());
-    let mut rng = Rng::derive(seed, h, i);
+    gen_case_h(reg, s, seed, i, Host { dup: hostile, nonfinite: hostile, noncanon: hostile })
+}
+
+pub fn gen_case_h(reg: &Registry, s: &dyn Subject, seed: u64, i: u64, h: Host) -> Case {
+    let hostile = true;
+    let hh = vcore::evidence::hash64(s.name());
+    let mut rng = Rng::derive(seed, hh, i);
     let fault_pm = *rng.pick(&[0u32, 40, 100, 200, 350]);
     let opts = GenOpts {
         fault_pm,
         max_depth: 5,
         max_len: 1 + rng.below(4),
-        allow_dup: hostile && rng.chance(1, 3),
-        allow_nonfinite: hostile && rng.chance(1, 3),
-        allow_noncanonical: hostile && rng.chance(1, 3),
+        allow_dup: hostile && h.dup && rng.chance(1, 3),
+        allow_nonfinite: hostile && h.nonfinite && (rng.chance(1, 3) || (!h.dup && !h.noncanon)),
+        allow_noncanonical: hostile && h.noncanon && rng.chance(1, 3),
         extra_key_pm: *rng.pick(&[0u32, 100, 300]),
     };
     let mut g = Gen::new(&reg.defs, rng, opts);
